@@ -324,6 +324,7 @@ RECV_STEPS = ("RECEIVING_FILE_DATA", "RECV_FILE_DATA_WITH_CHECK_LIMIT_HANDLING",
 class IndicationMonitor(Monitor):
     def __init__(self, w, strict_order: bool = False, msgs_expect_oid=None, msgs=None):
         self.strict = strict_order
+        self.blind = False
         self.oid = msgs_expect_oid
         self.msgs = msgs
         self.order = {"a": [], "b": []}
@@ -336,6 +337,12 @@ class IndicationMonitor(Monitor):
 
     def on_call(self, w, rec) -> None:
         c = w.cfg
+        if (rec.ent, rec.hk) not in (("a", "src"), ("b", "dst")):
+            return  # the model follows the sending handler of a and the receiving handler of b
+        if w.ents[rec.ent].nodrain or not w.ents[rec.ent].drained.get(rec.hk, True):
+            # the shell left PDUs in the handler: what is emitted per call is not observable any more, so the
+            # clauses that match indications with emissions are switched off for the rest of the run
+            self.blind = True
         bits = c.ind_a if rec.ent == "a" else c.ind_b
         names = [i[0] for i in rec.inds]
         for i in rec.inds:
@@ -353,12 +360,15 @@ class IndicationMonitor(Monitor):
                 w.violate("C15.tid", f"{rec.ent}.{rec.hk} {i[0]}", f"{i[1]} vs {want_tid}")
             elif rec.inb is not None and i[0] in ("metadata_recv", "file_segment_recv", "eof_recv") and i[1] != tid_of(rec.inb):
                 w.violate("C15.tid", f"{rec.ent}.{rec.hk} {i[0]}", f"{i[1]} vs pdu {tid_of(rec.inb)}")
+        if self.blind:
+            return
         if rec.hk == "src":
             self._sender(w, rec, names, bits)
         else:
             self._receiver(w, rec, names, bits)
 
     def _sender(self, w, rec, names, bits):
+        c = w.cfg
         if rec.op == "put":
             if rec.ret is True and rec.exc is None:
                 self.put_ok_pending = True
@@ -386,9 +396,15 @@ class IndicationMonitor(Monitor):
             self.eof_emitted = True
             if bits & 1 and "eof_sent" not in names:
                 w.violate("C15.missing", "a.src eof_sent at first EOF emission", "")
-        if rec.inb_kind == "FIN" and rec.exc is None and (
-            rec.pre.step == "WAITING_FOR_FINISHED" or (rec.pre.step == "WAITING_FOR_EOF_ACK" and rec.post.step == "SENDING_ACK_OF_FINISHED")
+        if "transaction" in names:
+            self.fin_accepted_a = None  # a new transaction: Finished PDUs of earlier ones bind nothing
+        if rec.inb_kind == "FIN" and rec.exc is None and rec.pre.step not in (
+            "SENDING_ACK_OF_FINISHED", "NOTICE_OF_COMPLETION", "IDLE"
+        ) and (
+            (c.mode == ACK and rec.post.step == "SENDING_ACK_OF_FINISHED")
+            or (c.mode == UNACK and c.closure and "finished" in names and rec.post.state == "IDLE")
         ):
+            # the Finished PDU was processed: acknowledged mode acknowledges it, unacknowledged mode completes at once
             self.fin_accepted_a = rec.inb_info
         if "finished" in names:
             fi = [i for i in rec.inds if i[0] == "finished"][0]
